@@ -2,13 +2,21 @@ package goat
 
 import (
 	"context"
+	"errors"
 	"sync"
+
+	"github.com/avos-io/goat/internal"
 )
 
 type demuxConn struct {
 	r chan *Rpc
 	w chan *Rpc
+	// closed by Cancel. r and w are never closed: Run, the writer goroutine and
+	// the connection's users may be in the middle of a send on them.
+	done chan struct{}
 }
+
+var errDemuxConnCancelled = errors.New("demux: connection cancelled")
 
 // Wraps a Goat Server, demultiplexing IO.
 type Demux struct {
@@ -68,6 +76,8 @@ func (gsd *Demux) Run() {
 
 		select {
 		case conn.r <- rpc:
+		case <-conn.done:
+			// cancelled meanwhile: nobody will read it
 		case <-gsd.ctx.Done():
 			// stopped while nobody reads this logical connection
 			return
@@ -80,8 +90,7 @@ func (gsd *Demux) Cancel(id string) {
 	defer gsd.conns.Unlock()
 
 	if conn, ok := gsd.conns.value[id]; ok {
-		close(conn.r)
-		close(conn.w)
+		close(conn.done)
 	}
 
 	delete(gsd.conns.value, id)
@@ -89,14 +98,17 @@ func (gsd *Demux) Cancel(id string) {
 
 func (gsd *Demux) newConnLocked(id string) *demuxConn {
 	c := &demuxConn{
-		r: make(chan *Rpc),
-		w: make(chan *Rpc),
+		r:    make(chan *Rpc),
+		w:    make(chan *Rpc),
+		done: make(chan struct{}),
 	}
 
 	go func() {
 		for {
 			select {
 			case <-gsd.ctx.Done():
+				return
+			case <-c.done:
 				return
 			case rpc, ok := <-c.w:
 				if !ok {
@@ -112,7 +124,34 @@ func (gsd *Demux) newConnLocked(id string) *demuxConn {
 
 	gsd.conns.value[id] = c
 
-	go gsd.onNewConnection(NewGoatOverChannel(c.r, c.w))
+	go gsd.onNewConnection(c.readWriter())
 
 	return c
+}
+
+// readWriter is the logical connection handed to onNewConnection: like
+// NewGoatOverChannel(c.r, c.w), but reads and writes fail once the connection
+// has been cancelled.
+func (c *demuxConn) readWriter() RpcReadWriter {
+	read := func(ctx context.Context) (*Rpc, error) {
+		select {
+		case <-ctx.Done():
+			return nil, ctx.Err()
+		case <-c.done:
+			return nil, errDemuxConnCancelled
+		case rpc := <-c.r:
+			return rpc, nil
+		}
+	}
+	write := func(ctx context.Context, rpc *Rpc) error {
+		select {
+		case <-ctx.Done():
+			return ctx.Err()
+		case <-c.done:
+			return errDemuxConnCancelled
+		case c.w <- rpc:
+			return nil
+		}
+	}
+	return internal.NewFnReadWriter(read, write)
 }
